@@ -426,6 +426,12 @@ func genG5(r rng, n int, t *testing.T) []*Scenario {
 		}
 		if r.chance(0.3) {
 			sc.Instances[0].Script = append(sc.Instances[0].Script, Action{After: r.between(h, at+eff), Do: r.pick2("stop", "stop_ctx"), Delete: r.chance(0.5), Wait: r.chance(0.5)})
+		} else if r.chance(0.4) {
+			// a second cause of demotion lands inside a connection path, between its leadership test and its demotion: the stop
+			// (or the fencing check) is made from the call-out that announces the decision
+			sc.Yield = true
+			sc.Actions = append(sc.Actions, Action{On: r.pick2("log:41", "log:41", "log:46", "log:44"), I: "n1",
+				Do: r.pick2("stop", "stop_ctx", "validate_or_demote"), SyncNs: r.pick(0, 1, 1)})
 		}
 		sc.Until = at + 2*eff + 4*h
 		sc.Grid = h / 2
@@ -457,6 +463,29 @@ func genG6(r rng, n int, t *testing.T) []*Scenario {
 		sc.Instances[0].MaxHealth = int(r.between(0, 4))
 		if len(sc.Instances) > 1 && r.chance(0.5) {
 			sc.Instances[1].Health = &HealthPlan{Default: true}
+		}
+		if r.chance(0.3) {
+			// a term ended by a stop call after a few unhealthy results, and a restart: the count starts again with the new term
+			thr := int64(3)
+			if sc.Instances[0].MaxHealth > 0 {
+				thr = int64(sc.Instances[0].MaxHealth)
+			}
+			k0 := int(r.between(2, 5))
+			res := make([]bool, 0, ln+8)
+			for j := 0; j < k0; j++ {
+				res = append(res, true)
+			}
+			for j := int64(0); j < r.between(1, thr-1) && thr > 1; j++ {
+				res = append(res, false)
+			}
+			stopAt := h*int64(len(res)) + h/2
+			for len(res) < ln+8 {
+				res = append(res, len(res)%int(thr+1) == int(thr) || r.chance(0.5))
+			}
+			hp.Results, hp.DurNs = res, nil
+			sc.Instances[0].Script = append(sc.Instances[0].Script,
+				Action{After: stopAt, Do: r.pick2("stop", "stop_ctx"), Delete: true, Wait: r.chance(0.5)},
+				Action{After: r.pick(1, h/2, h, 4*h), Do: "start"})
 		}
 		sc.Until = h * int64(ln+14)
 		sc.Grid = h / 2
